@@ -10,7 +10,9 @@ where it does not hold (values below the 1e-5 clamp, very wide dynamic ranges). 
 `torch.rand` are recorded while `sample` runs and handed to the model as exact rationals.
 
 Oracle (independent of Lean): a Python reference of the priorities (new -> running max, update ->
-max(p, 1e-5)), leaves == priority ** alpha, unstored leaves 0 / inf, tree_ptr == cursor, roots and
+the given priority; below the clamp only "positive, same in both trees" is required, the clamp
+constant itself is left to the model comparison), leaves == priority ** alpha, unstored leaves
+0 / inf, max_priority == highest priority seen, tree_ptr == cursor, roots and
 range queries vs direct computation over the leaves, sampled indices < len(buffer) and equal to
 the index whose prefix interval contains the query mass, sampled rows are the stored rows, weights
 == (N P(i))^-beta / max_j (N P(j))^-beta within 1e-6 and in (0, 1].
@@ -105,7 +107,8 @@ def run_case(case: dict):
     # python reference
     ref_prio: dict[int, float] = {}
     ref_ids: dict[int, int] = {}
-    ref_max = 1.0
+    ref_clamped: set[int] = set()      # slots whose last update was below the clamp (value = implementation detail)
+    ref_max = buf.max_priority          # the initial value is an implementation constant (model: 1)
     count = 0
     nid = 1
 
@@ -131,7 +134,11 @@ def run_case(case: dict):
         if buf.max_priority != ref_max:
             problems.append(f"{where}: max_priority={buf.max_priority!r}, highest priority seen so far is {ref_max!r}")
         for i in range(cap):
-            if i < n:
+            if i < n and i in ref_clamped:
+                if not (sl[i] == ml[i] and 0.0 < sl[i] < math.inf):
+                    problems.append(f"{where}: leaf {i}: sum={sl[i]!r} min={ml[i]!r} after a tiny priority")
+                    break
+            elif i < n:
                 want = ref_prio[i] ** float(alpha)
                 if sl[i] != want or ml[i] != want:
                     problems.append(f"{where}: leaf {i}: sum={sl[i]!r} min={ml[i]!r}, expected priority**alpha={want!r}")
@@ -164,11 +171,14 @@ def run_case(case: dict):
                     problems.append(f"add({n}) raised {type(e).__name__}: {e}")
             lines.append(f"seg add {n}")
             obs.append(("lit", "ok" if ok else "reject"))
+            if not ok and 1 <= n <= m:
+                return obs, lines, problems, tags          # state undefined after a failed legal add
             if ok:
                 for j in range(n):
                     slot = (count + j) % m
                     ref_prio[slot] = ref_max
                     ref_ids[slot] = ids[j]
+                    ref_clamped.discard(slot)
                 if count % m + n > m:
                     tags.append("wrap-across")
                 elif count % m + n == m:
@@ -214,7 +224,9 @@ def run_case(case: dict):
                 pc = max(p, 1e-5)
                 ref_prio[i] = pc
                 ref_max = max(ref_max, pc)
+                ref_clamped.discard(i)
                 if p < 1e-5:
+                    ref_clamped.add(i)
                     tags.append("upd-below-eps")
                 elif p < 2.0 ** -8:
                     tags.append("upd-tiny")
@@ -683,7 +695,7 @@ def run(chk: Check) -> None:
     for f in sorted((ROOT / "corpus" / "C11").glob("*.json")):
         c = json.loads(f.read_text())
         cases.append(c.get("replay", c))
-    n_cases = 220 if quick else 4000
+    n_cases = 500 if quick else 4000
     for _ in range(n_cases):
         cases.append(gen_case(rng, chk.tier))
     ndiff = 0
@@ -711,7 +723,7 @@ def run(chk: Check) -> None:
             chk.violation(f"implementation and SegTree model disagree at line {at}: impl={il[at]!r} model={ml[at]!r}; "
                           f"property oracle holds on this case and its shrinks", replay_obj, no_input=True)
     chk.suite("per-ops", len(cases), ndiff)
-    nfloat = 300 if quick else 6000
+    nfloat = 600 if quick else 6000
     chk.suite("float-sample", nfloat, float_sample_suite(chk, nfloat))
     probe_float_edge(chk)
     if chk.tier == "thorough":
